@@ -387,19 +387,28 @@ def gen_burst(n, tier):
               max(total + 2, 34), tier, [STUB_REAL])
 
 
+def off(h, why):
+    h.tier = "off"
+    h.off_reason = why
+    return h
+
+
 def plan(tier, seed):
+    HB = "std HashMap/HashSet (hashbrown) operations inside CompileCtx::compile / the symbol and dictionary loops: no verdict in 900-2400 s, also under the all-colliding hasher stub"
+    DI = "decode_instructions over >= 13 symbolic bytes (two loop iterations with 8-way opcode dispatch at symbolic cursor positions): out of 10 GB"
     hs = [gen_gate(8, "quick"), gen_gate(4, "thorough"), gen_gate(16, "thorough"), gen_short("quick"),
-          gen_loader_nopanic("features", ["feature_off"], "quick", unwind=5), gen_loader_nopanic("types", ["types_off"], "quick", unwind=5),
+          gen_loader_nopanic("features", ["feature_off"], "quick", unwind=5), gen_loader_nopanic("types", ["types_off"], "thorough", unwind=5),
           gen_loader_nopanic("consts", ["const_count", "const_tbl_off", "const_tbl_len"], "quick", unwind=5),
           gen_loader_nopanic("blob", ["const_blob_off", "const_blob_len"], "quick", unwind=18),
-          gen_loader_nopanic("instrs", ["instr_off", "instr_len"], "thorough", unwind=18),
-          gen_loader_nopanic("symbols", ["symbols_off", "symbols_len"], "thorough", unwind=5),
-          gen_loader_nopanic("dict", ["dict_off", "dict_len"], "thorough", unwind=5),
+          off(gen_loader_nopanic("instrs", ["instr_off", "instr_len"], "thorough", unwind=18), DI),
+          off(gen_loader_nopanic("symbols", ["symbols_off", "symbols_len"], "thorough", unwind=5), HB),
+          off(gen_loader_nopanic("dict", ["dict_off", "dict_len"], "thorough", unwind=5), HB),
           gen_decode_instr(9, "thorough"), gen_decode_instr(5, "thorough"),
-          gen_decode_instr_nopanic(13, "quick"), gen_decode_instr_nopanic(18, "thorough"), gen_decode_instr_nopanic(26, "thorough"), gen_parse_const_entries("quick"),
-          gen_roundtrip("quick"), gen_symbols(1, "quick"), gen_symbols(12, "quick"), gen_symbols(13, "thorough"),
+          off(gen_decode_instr_nopanic(13, "quick"), DI), off(gen_decode_instr_nopanic(18, "thorough"), DI), off(gen_decode_instr_nopanic(26, "thorough"), DI),
+          gen_parse_const_entries("quick"),
+          off(gen_roundtrip("quick"), HB), off(gen_symbols(1, "quick"), HB), off(gen_symbols(12, "quick"), HB), off(gen_symbols(13, "thorough"), HB),
           gen_burst(4, "quick"), gen_burst(8, "thorough")]
-    qtags = {"U8", "I64", "F64", "R64", "Bool", "U128"}
+    qtags = {"U8", "F64", "R64"}
     for tagname, size in SCALAR_TAGS:
         hs.append(gen_decode_const(tagname, size, "quick" if tagname in qtags else "thorough"))
     hs.append(gen_decode_const("U8", 1, "quick", bad_id="1"))
@@ -410,9 +419,11 @@ def plan(tier, seed):
     hs.append(gen_vararg_writer(33, "thorough"))
     for k in INSTR_KINDS:
         hs.append(gen_instr_kind(*k))
-    for t in ["u8", "String", "i64", "f64", "bool"]:
+    for t in ["u8", "f64"]:
         hs.append(gen_decode_const_roundtrip(t, "quick"))
-    hs.append(gen_decode_const_roundtrip("u16", "thorough"))
+    for t in ["i64", "bool", "u16"]:
+        hs.append(gen_decode_const_roundtrip(t, "thorough"))
+    hs.append(off(gen_decode_const_roundtrip("String", "quick"), "String::from_le -> String::from_utf8 (UTF-8 validation loops over a symbolic-length buffer): no verdict in 2400 s"))
     for t in ["u32", "u64", "u128", "i8", "i16", "i32", "i128", "f32", "R64", "C64"]:
         hs.append(gen_decode_const_roundtrip(t, "thorough"))
     return {
@@ -421,13 +432,17 @@ def plan(tier, seed):
         "explanation": "Kani/CBMC over the real loader (load_program_from_bytes, verify_crc_trailer_seek, load_program_from_reader, "
                        "decode_instructions, parse_const_entries, decode_const_entries), writer (CompileCtx::compile, to_bytes) and constant "
                        "codecs, with whole headers, section bytes, constant entries and checksums symbolic",
-        "bounds": "files <= 181 bytes (137-byte header + 40 + trailer); instruction streams <= 28 bytes; 1 constant entry over a 16-byte blob; "
-                  "round trip with 2 constants + 3 instructions; symbol sections with 1, 12, 13 concrete symbols; CRC burst on 4/8-byte payloads",
-        "outside": ["symbol and dictionary sections with symbolic content (HashMap insertion with symbolic keys)",
-                    "matrix / set / table / string constant decoders (ConstElem::from_le for containers)",
-                    "transient allocation size below CBMC's object-size limit (vec![0; n] for n < 2^47 is not observable)",
-                    "CRC burst detection for payloads longer than 8 bytes (rests on linearity of CRC-32)", "truncation of emitted files",
-                    "to_bytes with >= 2 symbols (HashMap iteration order)"],
+        "bounds": "files of 145 bytes (129-byte header + 12 body bytes + trailer) with one section's header fields symbolic at a time; instruction "
+                  "streams of 5 and 9 bytes, single instructions of every kind, VarArg with 17 / 33 operands; 1 constant entry over a 16-byte blob; "
+                  "constant codec round trip for 2 constants; CRC burst on 4/8-byte payloads",
+        "outside": ["whole-file round trip compile() -> from_bytes -> to_bytes and the symbol / dictionary sections: CompileCtx and the loader keep them "
+                    "in std HashMaps, which get no verdict (see excluded_no_verdict); the per-section codecs are decided instead",
+                    "instruction streams of 13 bytes and more with arbitrary content (no verdict); single instructions of every kind are decided",
+                    "matrix / set / table / string constant decoders (ConstElem::from_le for containers, UTF-8 validation)",
+                    "allocation sizes that do not overflow: `Vec::with_capacity(n)` / `vec![0; n]` for n below CBMC's object-size limit is not observable "
+                    "(VarArg operand count, const_count, type payload length, dictionary name length are only bounded by u32)",
+                    "section offsets pointing into the header (1..128)",
+                    "CRC burst detection for payloads longer than 8 bytes (rests on linearity of CRC-32)", "truncation of emitted files"],
         "stubs": ["std::fmt::format -> String::new()", "crc32fast::hash -> nondet u32 (gate, hostile input) | deterministic byte sum (round trip) | "
                   "crc32fast::Hasher::internal_new_baseline (burst detection); the SIMD path behind cpuid detection is not encoded"],
         "caps": {"quick_timeout": 900, "thorough_timeout": 2400},
